@@ -11,7 +11,7 @@ from pyvc import cuts
 
 EXTRA = ['spec.pots', 'contracts.engine', 'contracts.c01', 'contracts.c12']
 Q = 'pokerkit.state.State.'
-NAMES = ['can_win_now', 'verify_showing', 'begin_hand_killing', 'm5', 'm2']
+NAMES = ['can_win_now', 'get_hand', 'get_up_hand', 'verify_showing', 'begin_hand_killing', 'm5', 'm2']
 
 
 def shapes(tier):
@@ -40,6 +40,10 @@ def vc_task(task):
             return {Q + 'pots': cuts.pots_cut(vc, shape, c01.pots, pre=())}
     makers = {}
     tag = f'n{shape.n}t{shape.T}b{shape.B}'
+    if name in ('get_hand', 'get_up_hand'):
+        makers = {'player_index': (lambda I, ctx, wf, shape, i=task['player']: i)}
+        tag += f'p{task["player"]}'
+        factory = None
     if name == 'can_win_now':
         # one task per concrete player (hands are uninterpreted per card structure: a symbolic index would hide which hand is meant)
         makers = {'player_index': (lambda I, ctx, wf, shape, i=task['player']: i)}
@@ -142,7 +146,7 @@ def main(argv=None):
                               'extra': extra, 'timeout_ms': to})
         else:
             for sh in shapes(chk.tier):
-                for pl in (range(sh.n) if name == 'can_win_now' else (None,)):
+                for pl in (range(sh.n) if name in ('can_win_now', 'get_hand', 'get_up_hand') else (None,)):
                     tasks.append({'module': 'props.c12', 'fn': 'vc_task', 'name': f'{name}/n{sh.n}t{sh.T}b{sh.B}' + (f'p{pl}' if pl is not None else ''),
                                   'contract': name, 'shape': sh.as_dict(), 'timeout_ms': to, 'weight': sh.n * sh.T * sh.B, 'player': pl})
     if not only:
